@@ -26,6 +26,7 @@ def run(ctx):
     ctx.assumptions += base.COMMON_ASSUMPTIONS + [
         "never sliced (in every quick run): peers 127.0.0.1 and ::1 x X-Forwarded-For {absent, once, twice, last element = peer's text with something in front, = peer's text with something behind, = the peer itself} x other managed headers {absent, all forged} x {plain, TLS} x {http, websocket, Websocket} x configured names {canonical, X-TLS / X-Client-IP}; an address is accepted in any textual form of the same IP (a bracketed literal is not an address), Forwarded for= also in RFC 7239 quoting; when the client's list already ends with the peer, listing it once more is not judged",
         "forged styles now include a header sent twice where one copy says the truth and the other is forged, in both orders, for every managed header (sliced universe and the never-sliced peer universe): judged by the header's own clause - configured client-IP header exactly [peer], TLS header exactly the configured value on TLS / absent on plain, X-Forwarded-For = client's elements + peer, the others passed through as sent (Forwarded: first value, possibly extended)",
+        "never sliced: 128 connection histories - 2 or 3 requests sent one after the other over ONE keep-alive connection to one of fabio's own listeners (proxy.ListenAndServeHTTP, plain and TLS), asking for hosts a./b. with and without a port in every position: X-Forwarded-Port and X-Forwarded-Host must follow from each request alone (invariant ConnectionIndependent); the proxy is put together as in main with every metrics handler set",
         "configuration: client-IP header X-Client-Ip, TLS header X-Tls: true, HSTS max-age with includeSubdomains, each on or off (4 combinations)",
         "scope: when the client supplies exactly one of X-Forwarded-Proto / Forwarded only its pass-through is judged (fabio trusts the proxy in front; the statement is silent); a supplied Forwarded may be extended (by=, httpproto=) and, if sent twice, only the first value is judged; X-Forwarded-Port = port of the requested Host, else the default of the actual connection; Forwarded proto ws/wss counts as http/https; HSTS on the 101 answer of a TLS websocket handshake is not judged; a client-IP header named X-Forwarded-For or X-Real-Ip is not configured",
     ]
